@@ -109,3 +109,18 @@ CLAIMS["C14"] = dict(
          "TLC-checked design model; step-level replay exists for the cqueue half only; SC memory; bounded instances.",
     design_ref="DESIGN.md §6 C14",
 )
+
+CLAIMS["C02"] = dict(
+    text="Park.tla (literal model of park.rs: check_park's load/store|swap, the wait_kernel spin, the kernel side of the "
+         "yield - timer, store into wait_co, state re-check, fast wake-up, cancel registration -, unpark's swap+take, the timer "
+         "thread's take, the canceller's steps, two consecutive rounds) is checked exhaustively by TLC: resumed at most once per "
+         "round, a token always has a taker (no lost wake-up, state-based witness), Canceled only after a cancel, deadlock-freedom. "
+         "The real Park / ThreadPark are explored under the baton at the same granularity: the user side, the kernel side (an "
+         "actor of its own per OS thread), unparkers (threads and coroutines), the runtime's timer thread and a canceller are "
+         "stopped before every atomic step (seeded/PCT walk + preemption-bounded DFS), virtual clock for time-outs. Oracle: the "
+         "parker sleeps although an unpark on this round's fresh Blocker / its handle has returned (or a cancel was issued), "
+         "Timeout before the deadline, Canceled without cancel, panic, hang.",
+    note="Bound by exploration of the real code at atomic-step granularity plus the TLC-checked design model; step-level replay of "
+         "Park.tla behaviours is not wired up (labels of the draft differ from the hook names in places); SC memory; bounded instances.",
+    design_ref="DESIGN.md §6 C02",
+)
